@@ -1143,3 +1143,101 @@ Lemma ex_days_in_ok : Forall posting_in_ok (days_postings ex_days).
 Proof.
   repeat constructor; cbn; intros; try reflexivity; try discriminate.
 Qed.
+
+(* ------------------------------------------------------------ n_steps from the input alone *)
+(* at most one revaluation per day for a cell: n_steps <= bookings of the cell + number of days *)
+Section StepCount.
+  Variables (v : commodity) (a : account) (c : commodity).
+  Hypothesis Ha : account_ok a = true.
+  Hypothesis HAL : is_AL a = true.
+
+  Fixpoint ematch_count (m : positions) : Z :=
+    match m with [] => 0%Z | x :: r => ((if ematch a c x then 1 else 0) + ematch_count r)%Z end.
+
+  Lemma ematch_count_nokey m :
+    (forall x, In x m -> entry_ok x) -> (forall x, In x m -> fst x <> pos_key a c) -> ematch_count m = 0%Z.
+  Proof.
+    induction m as [|x m IH]; intros He Hk; cbn [ematch_count]; [reflexivity|].
+    rewrite IH; [|intros y Hy; apply He; right; exact Hy|intros y Hy; apply Hk; right; exact Hy].
+    destruct (ematch a c x) eqn:Em; [|reflexivity]. exfalso.
+    pose proof (He _ (or_introl eq_refl)) as (K & Ha' & _).
+    unfold ematch in Em. apply (key_match a c Ha _ _ Ha') in Em. apply (Hk x (or_introl eq_refl)). congruence.
+  Qed.
+
+  Lemma ematch_count_le_one m : entries_ok m -> (ematch_count m <= 1)%Z.
+  Proof.
+    intros [Hs He]. induction m as [|x m IH]; cbn [ematch_count]; [lia|].
+    inversion Hs as [|? ? Hs' Hall]; subst.
+    assert (He' : forall y, In y m -> entry_ok y) by (intros y Hy; apply He; right; exact Hy).
+    destruct (ematch a c x) eqn:Em; [|specialize (IH Hs' He'); lia].
+    pose proof (He _ (or_introl eq_refl)) as (K & Ha' & _).
+    unfold ematch in Em. apply (key_match a c Ha _ _ Ha') in Em.
+    rewrite ematch_count_nokey; [lia|exact He'|].
+    intros y Hy E. rewrite Forall_forall in Hall. specialize (Hall y Hy). unfold key_lt in Hall.
+    rewrite E, K, Em in Hall. exact (str_cmp_lt_irrefl _ Hall).
+  Qed.
+
+  Lemma adj_count date prev cur pos : forall ts,
+    val_adjustments v date prev cur pos = ROk ts -> (forall x, In x pos -> entry_ok x) ->
+    (cell_count a c (txns_postings ts) <= ematch_count pos)%Z.
+  Proof.
+    induction pos as [|[k [[a' c'] q]] rest IH]; intros ts H He; cbn [val_adjustments] in H.
+    - injection H as <-. cbn. lia.
+    - assert (He' : forall x, In x rest -> entry_ok x) by (intros x Hx; apply He; right; exact Hx).
+      pose proof (He _ (or_introl eq_refl)) as (_ & Ha' & _). cbn [fst snd] in Ha'.
+      cbn [ematch_count]. unfold ematch at 1. cbn [fst snd].
+      assert (Hskip : forall ts', val_adjustments v date prev cur rest = ROk ts' ->
+                (cell_count a c (txns_postings ts') <= (if acc_eqb a' a && str_eqb c' c then 1 else 0) + ematch_count rest)%Z).
+      { intros ts' H'. specialize (IH _ H' He'). destruct (acc_eqb a' a && str_eqb c' c); lia. }
+      destruct (str_eqb c' v || negb (is_AL a') || is_zero q); [apply Hskip; exact H|].
+      destruct (np_price_opt prev c') as [pp|]; [|discriminate].
+      destruct (np_price_opt cur c') as [cp|]; [|discriminate].
+      destruct (is_zero (sub cp pp)); [apply Hskip; exact H|].
+      destruct (val_adjustments v date prev cur rest) as [ts'| |] eqn:E; cbn [rbind] in H; try discriminate.
+      injection H as <-. specialize (IH _ eq_refl He').
+      destruct (adjust_pair a c Ha HAL a' c' (multiply (sub cp pp) q) Ha') as (_ & _ & P3).
+      unfold txns_postings in *. cbn [map concat t_postings]. rewrite cell_count_app, P3. lia.
+  Qed.
+
+  Lemma days_count ds : forall s s' ds',
+    Forall posting_in_ok (days_postings ds) -> entries_ok (v_qty s) ->
+    process_days (valuate_proc v) s ds = ROk (s', ds') ->
+    (cell_count a c (days_postings ds') <= cell_count a c (days_postings ds) + Z.of_nat (length ds))%Z.
+  Proof.
+    induction ds as [|d r IH]; intros s s' ds' Hin Hs H; cbn [process_days] in H.
+    - injection H as _ <-. cbn. lia.
+    - destruct (process_day (valuate_proc v) s d) as [[s1 d1]| |] eqn:E1; cbn [rbind fst snd] in H; try discriminate.
+      destruct (process_days (valuate_proc v) s1 r) as [[s2 r2]| |] eqn:E2; cbn [rbind fst snd] in H; try discriminate.
+      injection H as _ <-.
+      unfold days_postings in Hin. cbn [map concat] in Hin. apply Forall_app in Hin. destruct Hin as [Hd Hr].
+      assert (E1' : process_days (valuate_proc v) s [d] = ROk (s1, [d1])) by (cbn [process_days]; rewrite E1; reflexivity).
+      assert (Hd' : Forall posting_in_ok (days_postings [d])).
+      { unfold days_postings. cbn [map concat]. rewrite app_nil_r. exact Hd. }
+      pose proof (days_entries_ok v [d] s s1 [d1] Hd' Hs E1') as Hs1.
+      specialize (IH _ _ _ Hr Hs1 E2).
+      unfold days_postings in *. cbn [map concat length]. rewrite !cell_count_app.
+      destruct (valuate_day_inv _ _ _ _ _ E1) as (ts & sx & txns' & Eadj & Efold & _ & Etx & _).
+      assert (Hday : (cell_count a c (day_postings d1) <= cell_count a c (day_postings d) + 1)%Z).
+      { unfold day_postings. rewrite Etx. fold (txns_postings txns'). fold (txns_postings (d_txns d)).
+        rewrite (fold_txns_count _ a c _ _ _ _ Efold). unfold txns_postings. rewrite map_app, concat_app, cell_count_app.
+        fold (txns_postings ts). pose proof (adj_count _ _ _ _ _ Eadj (proj2 Hs)) as A.
+        pose proof (ematch_count_le_one _ Hs) as B. lia. }
+      lia.
+  Qed.
+End StepCount.
+
+(* the end-to-end bound with a step count that depends on the input only *)
+Theorem mark_to_market_stage_input_bound v a c ds s' ds' :
+  account_ok a = true -> is_AL a = true -> c <> v ->
+  Forall posting_in_ok (days_postings ds) ->
+  process_days (valuate_proc v) val_init ds = ROk (s', ds') ->
+  Qabs (cell_value a c (days_postings ds')
+        - cell_qty a c (days_postings ds) * price_value (last_normalized None ds) c)
+    <= inject_Z (cell_count a c (days_postings ds) + Z.of_nat (length ds)) * eps8.
+Proof.
+  intros Ha HAL Hcv Hin H.
+  eapply Qle_trans; [exact (mark_to_market_stage v a c ds s' ds' Ha HAL Hcv Hin H)|].
+  apply Qmult_le_compat_r; [|exact eps8_nonneg]. rewrite <- Zle_Qle.
+  apply (days_count v a c Ha HAL ds val_init s' ds' Hin); [|exact H].
+  split; [constructor|intros x []].
+Qed.
